@@ -3,6 +3,7 @@
    [closed_cert] (the trusted check, proved sound in proofs/Regex_Proofs.v) re-computes every
    derivative for one representative byte per atom and compares it with the claimed successor.
    Definitions only. *)
+From Coq Require Import FMapPositive.
 From Verif Require Import Bytes Regex RegexDeriv.
 
 Definition state := (bool * top)%type.
@@ -43,18 +44,30 @@ Definition step (q : state) (c : N) : state := (c =? 10, td (fst q) c (snd q)).
 Definition state_eqb (a b : state) : bool := Bool.eqb (fst a) (fst b) && top_eqb (snd a) (snd b).
 Definition accepting (q : state) : bool := tnul (fst q) NEnd (snd q).
 
+(* the numbered state list as a map from index to state (logarithmic lookup) *)
+Definition wmap := PositiveMap.t state.
+
+Fixpoint build_map (l : list state) (i : positive) (m : wmap) : wmap :=
+  match l with
+  | [] => m
+  | q :: r => build_map r (Pos.succ i) (PositiveMap.add i q m)
+  end.
+
+Definition wfind (m : wmap) (i : nat) : option state := PositiveMap.find (Pos.of_succ_nat i) m.
+
 (* one row of the certificate: state i, its successor indices in atom order *)
-Definition row_ok (CL : list cset) (atoms : list atom) (W : list state) (q : state) (succ : list nat) : bool :=
+Definition row_ok (CL : list cset) (atoms : list atom) (m : wmap) (q : state) (succ : list nat) : bool :=
   negb (accepting q) && classes_in CL (snd q) &&
   Nat.eqb (length succ) (length atoms) &&
-  forallb (fun p => match nth_error W (snd p) with
+  forallb (fun p => match wfind m (snd p) with
                     | Some q' => state_eqb (step q (fst (fst p))) q'
                     | None => false end)
           (combine atoms succ).
 
 Definition closed_cert (CL : list cset) (atoms : list atom) (W : list state) (tr : list (list nat)) : bool :=
+  let m := build_map W 1%positive (PositiveMap.empty state) in
   atoms_ok CL atoms && Nat.eqb (length W) (length tr) &&
-  forallb (fun p => row_ok CL atoms W (fst p) (snd p)) (combine W tr).
+  forallb (fun p => row_ok CL atoms m (fst p) (snd p)) (combine W tr).
 
 (* ---- untrusted exploration: BFS with a search tree from state to index ---- *)
 (* red-black tree (Okasaki); untrusted, so no invariants are proved *)
